@@ -53,8 +53,11 @@ func ScanNondeterminism(fn *ssa.Function) []NDHit {
 				if g := globalRoot(x.Map); g != nil {
 					add("global-store", in, "write to package-level map "+g.Pkg.Pkg.Name()+"."+g.Name())
 				}
-			case *ssa.Call:
-				n := CallName(&x.Call)
+			case *ssa.Call, *ssa.Defer:
+				// deferred calls are scanned like ordinary ones (a `defer pool.Put(x)` touches the pool all the same)
+				cc := in.(ssa.CallInstruction).Common()
+				cv := &callView{Call: *cc}
+				n := CallName(&cv.Call)
 				switch {
 				case n == "time.Now" || n == "time.Since" || n == "time.Until" || strings.HasSuffix(n, "utility.GetTime"):
 					add("clock", in, n)
@@ -65,8 +68,8 @@ func ScanNondeterminism(fn *ssa.Function) []NDHit {
 				case strings.HasPrefix(n, "(*github.com/hashicorp/golang-lru.") || strings.HasPrefix(n, "(*github.com/VictoriaMetrics/fastcache.") || strings.HasPrefix(n, "(*sync.Map).") ||
 					strings.HasPrefix(n, "(*github.com/hashicorp/golang-lru/simplelru."):
 					recv := "?"
-					if len(x.Call.Args) > 0 {
-						v := x.Call.Args[0]
+					if len(cv.Call.Args) > 0 {
+						v := cv.Call.Args[0]
 						if u, ok := v.(*ssa.UnOp); ok && u.Op == token.MUL {
 							v = u.X
 						}
@@ -75,12 +78,12 @@ func ScanNondeterminism(fn *ssa.Function) []NDHit {
 						} else if g, ok := v.(*ssa.Global); ok {
 							recv = "global:" + g.Pkg.Pkg.Name() + "." + g.Name()
 						} else {
-							recv = Desc(x.Call.Args[0])
+							recv = Desc(cv.Call.Args[0])
 						}
 					}
 					out = append(out, NDHit{Kind: "cache", Fn: fn, Instr: in, Pos: in.Pos(), Detail: n + " on " + recv, Seq: -1, Recv: recv})
-				case sharedObjectCall(x) != nil:
-					g := sharedObjectCall(x)
+				case sharedObjectCommon(&cv.Call) != nil:
+					g := sharedObjectCommon(&cv.Call)
 					out = append(out, NDHit{Kind: "shared-object", Fn: fn, Instr: in, Pos: in.Pos(), Detail: n + " on package variable " + g.Pkg.Pkg.Name() + "." + g.Name(), Seq: -1, Recv: "global:" + g.Pkg.Pkg.Name() + "." + g.Name()})
 				case n == "os.Getenv" || n == "os.LookupEnv" || n == "os.Hostname" || n == "os.Getpid":
 					add("env", in, n)
@@ -330,15 +333,26 @@ func globalRoot(v ssa.Value) *ssa.Global {
 // state and every goroutine of the process; if the method mutates it, what one
 // execution observes depends on what else ran. Loggers and locks are not
 // reported (they carry no value that reaches state).
-func sharedObjectCall(call *ssa.Call) *ssa.Global {
+// callView lets the scanner treat Call and Defer alike.
+type callView struct{ Call ssa.CallCommon }
+
+// HitCommon returns the call operands of a call-shaped hit (Call or Defer).
+func HitCommon(h NDHit) *ssa.CallCommon {
+	if ci, ok := h.Instr.(ssa.CallInstruction); ok {
+		return ci.Common()
+	}
+	return nil
+}
+
+func sharedObjectCommon(cc *ssa.CallCommon) *ssa.Global {
 	var recv ssa.Value
-	if call.Call.IsInvoke() {
-		recv = call.Call.Value
-	} else if f := call.Call.StaticCallee(); f != nil && f.Signature.Recv() != nil && len(call.Call.Args) > 0 {
+	if cc.IsInvoke() {
+		recv = cc.Value
+	} else if f := cc.StaticCallee(); f != nil && f.Signature.Recv() != nil && len(cc.Args) > 0 {
 		if _, isPtr := f.Signature.Recv().Type().Underlying().(*types.Pointer); !isPtr {
 			return nil // value receiver: the object is copied
 		}
-		recv = call.Call.Args[0]
+		recv = cc.Args[0]
 	} else {
 		return nil
 	}
